@@ -122,17 +122,38 @@ Inductive qop : Type :=
   | Create (cls : sclass)          (* create_thread_object for a task of class [cls] *)
   | Terminate (n : nat).           (* the n-th live task terminates: recycle_thread *)
 
-Definition q_step (p : params) (q : qstate) (op : qop) : qstate :=
+(* The code of one queue implementation, as regenerated from its source: the two if-chains and the
+   ends of the std::list a heap is read / written at.  Two instances: [tq_code] (thread_queue.hpp,
+   all schedulers but one) and [mc_code] (thread_queue_mc.hpp + queue_holder_thread.hpp, the
+   shared-priority scheduler, which has its own copy of creation and recycling). *)
+Record qcode : Type := mkCode {
+  qc_create : list (sclass * sclass);    (* create_thread_object: size parameter compared -> heap *)
+  qc_recycle : list (sclass * sclass);   (* recycle_thread *)
+  qc_take : hend;                        (* heap->back(); pop_back()   /  heap->front(); pop_front() *)
+  qc_put : hend }.                       (* push_back(thrd)            /  push_front(tid) *)
+Definition tq_code : qcode := mkCode create_chain recycle_chain tq_heap_take tq_heap_put.
+Definition mc_code : qcode := mkCode mc_create_chain mc_recycle_chain mc_heap_take mc_heap_put.
+
+(* a heap is the std::list in its order: head of the Coq list = front() *)
+Definition take_end (e : hend) (l : list tobj) : option (tobj * list tobj) :=
+  match e with
+  | HFront => match l with o :: r => Some (o, r) | [] => None end
+  | HBack => match rev l with o :: r => Some (o, rev r) | [] => None end
+  end.
+Definition put_end (e : hend) (o : tobj) (l : list tobj) : list tobj :=
+  match e with HFront => o :: l | HBack => l ++ [o] end.
+
+Definition q_step_g (k : qcode) (p : params) (q : qstate) (op : qop) : qstate :=
   match op with
   | Create cls =>
       let want := get_stack_size p cls in
-      match chain_lookup create_chain p want with
+      match chain_lookup (qc_create k) p want with
       | None => mkQ (qheaps q) (qlive q) (qnext q) (EvNoHeap want :: qlog q)
       | Some h =>
-          match qheaps q h with
-          | o :: rest =>        (* heap->back(); pop_back(); rebind *)
+          match take_end (qc_take k) (qheaps q h) with
+          | Some (o, rest) =>        (* if (!heap->empty()): take the object at the code's end; rebind *)
               mkQ (upd_heap (qheaps q) h rest) (o :: qlive q) (qnext q) (EvRebound o cls want :: qlog q)
-          | [] =>
+          | None =>
               let o := mkObj (qnext q) want in
               mkQ (qheaps q) (o :: qlive q) (qnext q + 1) (EvNew o cls want :: qlog q)
           end
@@ -142,14 +163,22 @@ Definition q_step (p : params) (q : qstate) (op : qop) : qstate :=
       | None => q
       | Some o =>
           let live' := firstn n (qlive q) ++ skipn (S n) (qlive q) in
-          match chain_lookup recycle_chain p (osize o) with
+          match chain_lookup (qc_recycle k) p (osize o) with
           | None => mkQ (qheaps q) live' (qnext q) (EvNoHeap (osize o) :: qlog q)
-          | Some h => mkQ (upd_heap (qheaps q) h (o :: qheaps q h)) live' (qnext q) (EvRecycled o h :: qlog q)
+          | Some h => mkQ (upd_heap (qheaps q) h (put_end (qc_put k) o (qheaps q h))) live' (qnext q) (EvRecycled o h :: qlog q)
           end
       end
   end.
 Definition q_init : qstate := mkQ (fun _ => []) [] 0 [].
-Definition q_run (p : params) (ops : list qop) : qstate := fold_left (q_step p) ops q_init.
+Definition q_run_g (k : qcode) (p : params) (ops : list qop) : qstate := fold_left (q_step_g k p) ops q_init.
+
+(* thread_queue *)
+Definition q_step : params -> qstate -> qop -> qstate := q_step_g tq_code.
+Definition q_run : params -> list qop -> qstate := q_run_g tq_code.
+(* thread_queue_mc / queue_holder_thread: one set of heaps per worker's holder, shared by its
+   bound / high / normal / low priority queues (all of them call holder_->create_thread_object) *)
+Definition mc_q_step : params -> qstate -> qop -> qstate := q_step_g mc_code.
+Definition mc_q_run : params -> list qop -> qstate := q_run_g mc_code.
 
 (* the two chains agree and no heap is the target of two entries *)
 Fixpoint chain_eqb (a b : list (sclass * sclass)) : bool :=
@@ -162,8 +191,10 @@ Fixpoint mem_class (c : sclass) (l : list sclass) : bool :=
   match l with [] => false | x :: t => sclass_eqb x c || mem_class c t end.
 Fixpoint nodup_classes (l : list sclass) : bool :=
   match l with [] => true | x :: t => negb (mem_class x t) && nodup_classes t end.
-Definition chains_ok : bool :=
-  chain_eqb create_chain recycle_chain && nodup_classes (map snd create_chain).
+Definition chains_ok_g (k : qcode) : bool :=
+  chain_eqb (qc_create k) (qc_recycle k) && nodup_classes (map snd (qc_create k)).
+Definition chains_ok : bool := chains_ok_g tq_code.
+Definition mc_chains_ok : bool := chains_ok_g mc_code.
 
 (* ---------------- thread_stacksize::current: which class a created task gets ----------------
    A creation request carries either an explicit class or `current`.  A piece of code runs in a
@@ -199,12 +230,28 @@ Definition create_prologue : cpath -> option sclass -> sreq -> sreq := create_pr
 Definition object_ctx (path : cpath) (creator conv : option sclass) : option sclass :=
   match path with RunNow => creator | Staged => conv end.
 (* class whose configured size the new task's stack gets (create_thread_object) *)
-Definition created_class (path : cpath) (creator conv : option sclass) (r : sreq) : sclass :=
-  resolve (object_ctx path creator conv) (create_prologue path creator r).
+Definition created_class_at (site : cur_site) (path : cpath) (creator conv : option sclass) (r : sreq) : sclass :=
+  resolve (object_ctx path creator conv) (create_prologue_at site path creator r).
+Definition created_class : cpath -> option sclass -> option sclass -> sreq -> sclass := created_class_at current_resolution.
 (* what the new task itself reports as its class (stacksize_enum_): [None] = the unresolved
    enumerator `current` was stored (PIKA_ASSERT in debug builds) *)
-Definition created_enum (path : cpath) (creator : option sclass) (r : sreq) : option sclass :=
-  match create_prologue path creator r with Explicit c => Some c | Current => None end.
+Definition created_enum_at (site : cur_site) (path : cpath) (creator : option sclass) (r : sreq) : option sclass :=
+  match create_prologue_at site path creator r with Explicit c => Some c | Current => None end.
+Definition created_enum : cpath -> option sclass -> sreq -> option sclass := created_enum_at current_resolution.
+
+(* thread_queue_mc::create_thread has its own copy of the resolution (Gen.mc_current_resolution,
+   regenerated from thread_queue_mc.hpp); the immediate path calls holder_->create_thread_object in
+   the creator's context, the staged path pushes the init data itself (task_description =
+   thread_init_data) and thread_queue_mc::add_new — the owner of the RECEIVING holder, from the
+   scheduling loop — converts it.  shared_priority_queue_scheduler::create_thread and
+   queue_holder_thread::create_thread may turn run_now off (target worker <> creating worker) before
+   that function is entered, never on: an immediate request can become a staged one, which the
+   quantification over [path] covers. *)
+Definition mc_created_class : cpath -> option sclass -> option sclass -> sreq -> sclass := created_class_at mc_current_resolution.
+Definition mc_created_enum : cpath -> option sclass -> sreq -> option sclass := created_enum_at mc_current_resolution.
+(* run_now as thread_queue_mc::create_thread sees it *)
+Definition mc_effective_path (same_worker : bool) (path : cpath) : cpath :=
+  match path with RunNow => if same_worker then RunNow else Staged | Staged => Staged end.
 
 (* a chain of creations: every generation is created by a task of the previous one, through some
    path, converted (if staged) in some context *)
@@ -212,4 +259,9 @@ Fixpoint descend (c : sclass) (gens : list (cpath * option sclass * sreq)) : scl
   match gens with
   | [] => c
   | (path, conv, r) :: t => descend (created_class path (Some c) conv r) t
+  end.
+Fixpoint mc_descend (c : sclass) (gens : list (cpath * option sclass * sreq)) : sclass :=
+  match gens with
+  | [] => c
+  | (path, conv, r) :: t => mc_descend (mc_created_class path (Some c) conv r) t
   end.
